@@ -778,8 +778,11 @@ def run(ck: Check):
     ck.prove(exes=["drv_C21"])
     ck.partial.append("PARTIAL: only the per-instruction translation (INSTRUCTION_SET/Op), CONDS and the Writer's expression and "
                       "in-place assignment forms are proved; register propagation is modelled for one basic block only (constants, unary/cast, "
-                      "binary and one-argument static invoke assignments, a final return; tied to the real pass by correspondence) and "
-                      "refuted on the witness of propagation-past-redefinition; propagation across branches and loops, dead-code "
+                      "binary and one-argument static invoke assignments, a final return; tied to the real pass by correspondence), proved "
+                      "to preserve the outcome of the blocks on which every change it makes passes a decidable check (SafeBlock: pure "
+                      "definition without / and %, nothing it reads assigned before the use, deleted definitions dead) and refuted on the "
+                      "witness of propagation-past-redefinition; SafeBlock is checked by running the model on the block, not derived from "
+                      "a condition on the input; propagation of divisions and invokes, propagation across branches and loops, dead-code "
                       "elimination, variable splitting and typing, "
                       "loop/if/switch structuring and the statement writer are covered by differential execution only")
     ck.rule = ("instruction samples: every opcode of the subset x literals (boundaries + random) x register contents (boundaries + "
@@ -794,7 +797,15 @@ def run(ck: Check):
         "print_parse: the lexer (text -> Java lexemes, JLS 3) is harness/c21_jexpr.py:lex, not part of the Lean model; the theorem is "
         "about the lexeme list. Model/JExpr.lean's parser is a hand transcription of the JLS 15 expression grammar for the lexemes "
         "the Writer emits (no ternary, assignment, instanceof, lambda, generics, multi-dimensional array creation); toJava (what Java "
-        "tree an IR node stands for) is part of the specification"]
+        "tree an IR node stands for) is part of the specification",
+        "propagate_sound_partial / propagation_past_redefinition_refuted: Model/Propagate.lean is a hand transliteration of register_propagation, "
+        "clear_path and of build_def_use on one block (tied by the stream 'register_propagation on one basic block'); blocks are built "
+        "from operands that are registers or constants, as the instruction translations build them (no move instruction: a right-hand "
+        "side is never a bare register); for `w op w` (one shared operand object) BinaryExpression.replace visits the object twice, "
+        "the model once - the same unless the replaced register occurs in its own replacement, which cannot happen when every register "
+        "is assigned once (the stream emits the shape only there; elsewhere the real pass can build a cyclic expression and die of "
+        "RecursionError); the semantics of the block IR (Propagate.run: left-to-right evaluation, an exception ends the block, the world "
+        "is the sequence of calls) is part of the specification"]
     ck.notes.append("print_parse is proved for every well-formed IR expression tree (JExpr.WF: each operand printed at least as tightly "
                     "as its position needs); trees outside WF (a bare comparison as an operand, `a cmp b` of float compares) are "
                     "printed by the Writer as text that means something else or is not Java - DAD's own pipeline only builds "
